@@ -30,7 +30,7 @@ const (
 	collNone coll = iota
 	collBin       // utf8mb4_0900_bin: byte (= code point) order, NO PAD
 	collAI        // utf8mb4_0900_ai_ci: accent and case insensitive, NO PAD
-	collGen       // utf8mb4_general_ci: case insensitive, á = a; PAD SPACE in MySQL (see cmpStr)
+	collGen       // utf8mb4_general_ci: case insensitive, á = a (PAD SPACE in MySQL: see cmpStr)
 )
 
 var collName = [...]string{"", "utf8mb4_0900_bin", "utf8mb4_0900_ai_ci", "utf8mb4_general_ci"}
@@ -56,16 +56,11 @@ func fold(s string) string {
 //
 // utf8mb4_general_ci is PAD SPACE in MySQL ('a ' = 'a') while the engine compares every
 // collation without padding ('a' < 'a '); the property statement does not speak about padding
-// (C29 excludes it as well), so for general_ci trailing spaces are ignored here: strings that
-// differ only in trailing spaces are ties, and either relative order is accepted. On the
-// generator's alphabet (no character below space) the NO PAD order refines the PAD SPACE
-// order, so this is exactly the set of orders legal under one of the two readings.
+// (C29 excludes it as well), so values with trailing spaces are never stored in, or collated
+// as, general_ci (gen.go), and the two readings coincide on everything that is generated.
 func cmpStr(a, b string, c coll) int {
-	switch c {
-	case collAI:
+	if c == collAI || c == collGen {
 		return strings.Compare(fold(a), fold(b))
-	case collGen:
-		return strings.Compare(strings.TrimRight(fold(a), " "), strings.TrimRight(fold(b), " "))
 	}
 	return strings.Compare(a, b)
 }
